@@ -36,9 +36,9 @@ def std_sources(tier):
         for c in [(6,), (2, 1, 3), (3, 3), (1, 2, 2, 1)]:
             S.append(E.src((6,), (c,), "i8"))
         S.append(E.src((3, 4), ((1, 2), (2, 2)), "i8"))
-        S.append(E.src((6,), ((2, 2, 2),), "c16"))
-        S.append(E.src((6,), ((2, 1, 3),), "f4"))
-        S.append(E.src((6,), ((3, 3),), "bool"))
+        # (complex / float32 / bool sources are not part of the E1 space: their
+        # result-dtype conventions were never adjudicated op by op; C18 covers
+        # these dtypes for the reductions)
     return S
 
 
